@@ -287,6 +287,18 @@ class Run:
             self.fail("eff-raises", f"worker {w}: effective_priority() raised {type(e).__name__}")
             return None
 
+    def ready_order(self, skip=None):
+        """worker index (None for other handles) of the ready entries in pop order (priority loop)"""
+        ents = [e for e in self.loop.ready_queue._pq._pq if not e.obj._cancelled]
+        ents.sort(key=lambda e: (e.priority.priority_class, e.priority.priority(), e.sequence))
+        out = []
+        for e in ents:
+            w = self.index.get(getattr(e.obj._callback, "__self__", None))
+            if w is not None and w == skip:
+                continue
+            out.append(w)
+        return out
+
     def observe(self) -> str:
         rm = self.ready_map()
         parts = []
@@ -534,6 +546,17 @@ class Run:
             except RuntimeError:
                 self.tags.add("throw-refused")
             self.ev(f"throw {i} {code}")
+        elif kind == "reinsert":
+            # scheduling.task_reinsert(task, pos): the task's ready handle is moved to position `pos`;
+            # on the priority loop it, and the entries popped before it, become positional (class 0)
+            from asynkit.scheduling import task_reinsert
+            i, pos = act[2], act[3]
+            if i not in self.last_rm or self.tasks[i].done():
+                return                      # not in the ready queue: nothing to move
+            promoted = [w for w in self.ready_order(skip=i)[:pos] if w is not None] if self.prio else []
+            task_reinsert(self.tasks[i], pos)
+            self.tags.add("ready-entry-made-positional" + ("-woken-lock-waiter" if i in self.waiting else ""))
+            self.ev(f"reinsert {i} " + (",".join(map(str, promoted)) or "-"))
         elif kind == "interrupt":
             i, code, urgent = act[2], act[3], act[4]
             coro = self.agent(i, code)
@@ -616,10 +639,19 @@ class Run:
         asyncio.events.Handle._run = _patched_run
         try:
             self.loop.run_forever()
+        except core.InfraError:
+            raise
+        except BaseException as e:  # noqa: BLE001
+            # the event loop itself died (e.g. its ready queue lost track of an entry): a finding
+            self.fail("loop-error", f"the event loop stopped with {type(e).__name__}: {e}")
+            self.crashed = True
         finally:
             asyncio.events.Handle._run = _ORIG_RUN
             _CURRENT = None
-        self.final_checks()
+        if not getattr(self, "crashed", False):
+            self.final_checks()
+        else:
+            self.aborted = True
         # release everything (coroutines were kept alive until the logs were complete)
         for ag in self.agents.values():
             ag["task"]._log_destroy_pending = False
@@ -742,6 +774,9 @@ def gen_case(rng, mode):
                 env.append([n, "interrupt", i, rng.randrange(4), rng.random() < 0.5])
         else:
             env.append([n, "cancel", i])
+    if mode == "C13" and rng.random() < 0.25:
+        for _ in range(rng.randint(1, 2)):
+            env.append([rng.randint(1, horizon), "reinsert", rng.randrange(nw), rng.randint(0, 2)])
     env.sort(key=lambda a: a[0])
     return {"loop": loop, "nlocks": nl, "nevents": ne, "workers": workers, "env": env}
 
@@ -897,6 +932,28 @@ def gen_headkey_case(rng):
     return {"loop": "prio", "nlocks": 3, "nevents": 4, "workers": ws, "env": env}
 
 
+def gen_woken_holder_case(rng):
+    """Directed shape for C11, priority loop: a holder that has just been handed another lock but has
+    not run yet.  H holds L1 and is queued on L2, held by the very urgent R.  In one instant R is let go
+    (it releases L2: H is woken, runnable, `_waiting_on` still set), the urgent W is released towards L1
+    and a medium task M becomes runnable.  W's priority must reach H's ready-queue entry at once, so that
+    H runs before M."""
+    mk = lambda pri, script: {"kind": "P", "pri": pri, "script": script}  # noqa: E731
+    pr = rng.choice(["-20", "-15", "-12"])
+    pw = rng.choice(["-5", "HIGH", "-4"])
+    pm = rng.choice(["0", "NORMAL", "-1", "1", "1/2"])
+    ph = rng.choice(["5", "LOW", "3", "7"])
+    l1, l2 = rng.choice([(0, 1), (0, 2), (1, 2)])
+    R = mk(pr, [["acq", l2], ["wait", 0], ["rel"]] + [["sleep"]] * rng.randint(0, 1))
+    H = mk(ph, [["acq", l1], ["acq", l2]] + [["sleep"]] * rng.randint(0, 1) + [["rel"], ["rel"]])
+    W = mk(pw, [["wait", 1], ["acq", l1], ["rel"]])
+    M = mk(pm, [["wait", 2]] + [["sleep"]] * rng.randint(0, 2))
+    ws = [R, H, W, M]
+    rng.shuffle(ws)
+    env = [[4, "set", e] for e in rng.sample([0, 1, 2], 3)]
+    return {"loop": "prio", "nlocks": 3, "nevents": 3, "workers": ws, "env": env}
+
+
 def gen_fallback_case(rng):
     """Directed shape for C11 ("falls back when they stop waiting"), priority loop, one cancel:
     W waits for L0 held by B, B is queued on L1 held by C (chain of length 2); independently W2 waits
@@ -919,6 +976,26 @@ def gen_fallback_case(rng):
     loop = rng.choice(["prio", "prio", "prio", "stock"])
     env = [[5, "set", 2], [6, "set", 3], [7, "cancel", wi]] + [[7, "set", e] for e in rng.sample([0, 1], 2)]
     return {"loop": loop, "nlocks": 3, "nevents": 4, "workers": ws, "env": env}
+
+
+def gen_positional_case(rng):
+    """Directed shape for C13, priority loop: a PriorityTask X holds lock a and has been woken for lock b
+    (wake-up handle in the ready queue); that handle is made positional (scheduling.task_reinsert, what
+    sleep_insert / task_switch do); then a more urgent task queues on a, so priority inheritance asks
+    the loop to reschedule X.  The positional entry must keep its place - and must not be lost."""
+    mk = lambda pri, script: {"kind": "P", "pri": pri, "script": script}  # noqa: E731
+    a, b = rng.choice([(0, 1), (1, 0)])
+    G = mk(rng.choice(["-20", "-15"]), [["acq", b], ["wait", 0], ["rel"]])
+    X = mk(rng.choice(["5", "3", "LOW"]), [["acq", a], ["acq", b]] + [["sleep"]] * rng.randint(0, 1) + [["rel"], ["rel"]])
+    U = mk(rng.choice(["-5", "HIGH", "-2"]), [["wait", 1], ["acq", a], ["rel"]])
+    ws = [G, X, U]
+    if rng.random() < 0.5:
+        ws.append(mk(rng.choice(["0", "1", "NORMAL"]), [["wait", 1], ["acq", b], ["rel"]]))
+    rng.shuffle(ws)
+    xi = ws.index(X)
+    n0 = len(ws)
+    env = [[n0, "set", 0], [n0 + 1, "set", 1], [n0 + 1, "reinsert", xi, rng.randint(1, 2)]]
+    return {"loop": "prio", "nlocks": 2, "nevents": 2, "workers": ws, "env": env}
 
 
 def gen_chain_case(rng):
